@@ -134,6 +134,8 @@ GROUPS = [
     ["c:/a.txt", "c:\\a.txt", "c:/x/../a.txt", "C:/a.txt"],
     # climbing above the start, doubled separators
     ["../a.txt", "x/../../a.txt", "p//a.txt", "p/a.txt"],
+    # a buffer named like a drive: directory-prefix hit through the back-slash of an absolute prefix
+    ["c:", "c:\\a.txt", "c:/a.txt", "c:\\"],
 ]
 ALL_NAMES = sorted({n for g in GROUPS for n in g})
 
